@@ -53,6 +53,18 @@ CHECKS = {
         "value per name is compared (filter_cookies returns a dict); no public-suffix list on either side.",
         "5/C16",
     ),
+    "C03": (
+        "exploration",
+        "differential (metamorphic) testing over segmentations: grammar-generated, mutated and limit-edge HTTP streams "
+        "fed to the pure-Python request/response parsers under ALL 1- and 2-cuts (short streams), byte-at-a-time, "
+        "structural and random cuts, compared with the one-read outcome",
+        "For every generated stream and limit configuration the outcome (messages, fields, body bytes, chunk boundaries, "
+        "rejected flag, EOF result, limit flag for limit-edge streams) must be identical for every way of cutting the "
+        "stream into reads; exhaustive over single and double cut points for streams up to 150 bytes.",
+        "No external oracle is needed (the one-read outcome of the same parser is the reference); payload streams are "
+        "drained by the harness, the pause/resume path is exercised with small read-buffer limits.",
+        "5/C03",
+    ),
 }
 
 REASON_PENDING = "check not built yet in this round (design in DESIGN.md section 5); not claimed until it runs quietly on the unchanged tree"
